@@ -114,6 +114,7 @@ let exn_name = function
   | KeyError -> "KeyError" | IndexError -> "IndexError" | TypeError -> "TypeError"
   | AssertionError -> "AssertionError" | AttributeError -> "AttributeError"
   | ZeroDivisionError -> "ZeroDivisionError" | RecursionError -> "RecursionError"
+  | StopIteration -> "StopIteration"
   | OutOfFuel -> "OutOfFuel"
 let p_res f = function
   | Ok v -> add "{\"ok\":"; f v; add "}"
@@ -124,10 +125,28 @@ let p_atom (a : atom) =
   add "["; p_str a.a_element; add ","; p_bool a.a_aromatic; add ","; p_opt p_n a.a_isotope; add ",";
   p_opt p_str a.a_chirality; add ","; p_opt p_n a.a_hcount; add ","; p_z a.a_charge; add "]"
 
+(* ---------- encoder-side dumps ---------- *)
+let p_attrs = p_opt (p_list p_attr)
+let p_ebond_dump ((((dst, o2), st), ring), at) =
+  add "["; p_nat dst; add ","; p_z o2; add ","; p_opt p_n st; add ","; p_bool ring; add ","; p_attrs at; add "]"
+let p_mol_dump (d : mol_dump) =
+  add "{\"atoms\":"; p_list (fun (a, at) -> add "["; p_atom a; add ","; p_attrs at; add "]") d.d_atoms;
+  add ",\"adj\":"; p_list (p_list (p_opt p_ebond_dump)) d.d_adj;
+  add ",\"roots\":"; p_list p_nat d.d_roots;
+  add ",\"counts2\":"; p_list p_z d.d_counts2;
+  add ",\"ringflags\":"; p_list p_bool d.d_ringflags;
+  add ",\"ds\":"; p_list (p_pair p_nat (p_list p_nat)) d.d_ds;
+  add "}"
+let j_psop = function
+  | JArr [JInt "0"; k] -> OpAdd (j_nat k)
+  | JArr [JInt "1"; _] -> OpPop
+  | JArr [JInt "2"; k] -> OpDiscard (j_nat k)
+  | _ -> failwith "set op expected"
+
 let p_satom (a : satom) =
   add "["; p_str a.sa_elem; add ","; p_bool a.sa_arom; add ","; p_opt p_n a.sa_iso; add ",";
   p_opt p_str a.sa_chi; add ","; p_opt p_n a.sa_h; add ","; p_z a.sa_charge; add "]"
-let p_slot (s : slot) =
+let p_slot (s : nslot) =
   add "["; p_nat s.sl_to; add ","; p_z s.sl_order2; add ","; p_opt p_n s.sl_mark; add ","; p_bool s.sl_ring; add "]"
 let p_smol (m : smol) = add "["; p_list p_satom m.sm_atoms; add ","; p_list (p_list p_slot) m.sm_nbrs; add "]"
 
@@ -168,6 +187,45 @@ let handle (req : json) : unit =
                     | None -> add "{\"ok\":false,\"why\":\"unreadable\"}"
                     | Some m2 -> add "{\"ok\":"; p_bool (smol_eqb m m2); add "}"))
     | "elements", [] -> p_list p_str elements
+    | "idx_to", [n] -> p_res (p_list p_str) (get_selfies_from_index (j_z n))
+    | "modernize", [s] -> p_res p_str (modernize_symbol (j_str s))
+    | "atom_sym", [t; s] ->
+        p_res (p_opt (fun (((o, st), a), cap) -> add "["; p_z o; add ","; p_opt p_n st; add ","; p_atom a; add ","; p_z cap; add "]"))
+          (process_atom_symbol (j_table t) (j_str s))
+    | "smiles_atom", [s] -> p_res (p_opt p_atom) (smiles_to_atom (j_str s))
+    | "nas", [a; c; s] -> p_pair p_z (p_opt p_z) (next_atom_state (j_z a) (j_z c) (j_z s))
+    | "nbs", [a; s] -> p_pair p_z p_z (next_branch_state (j_z a) (j_z s))
+    | "nrs", [a; s] -> p_pair p_z (p_opt p_z) (next_ring_state (j_z a) (j_z s))
+    | "enc", [t; s; strict; attr] ->
+        p_res (p_pair p_str (p_list p_amap)) (encoder (j_table t) (j_str s) (j_bool strict) (j_bool attr))
+    | "pm", [g] ->
+        p_res (p_opt (p_list (p_opt p_nat))) (find_perfect_matching (j_list (j_list j_nat) g))
+    | "greedy", [g] ->
+        p_res (p_list (p_opt p_nat)) (greedy_matching (j_list (j_list j_nat) g))
+    | "parse_kek", [s; attr] ->
+        p_res (fun (d, k) -> add "["; p_mol_dump d; add ","; p_res (p_opt p_mol_dump) k; add "]")
+          (parse_kekulize (j_str s) (j_bool attr))
+    | "pruned_ds", [s] ->
+        p_res (p_list (p_list p_nat))
+          (match smiles_to_mol (j_str s) false with Ok m -> pruned_ds m | Err e -> Err e)
+    | "tok", [s] ->
+        p_res (p_list (fun (t : token) ->
+                 add "["; p_opt p_n t.t_bond; add ","; p_nat t.t_start; add ",";
+                 add (match t.t_type with TAtom -> "0" | TBranch -> "1" | TRing -> "2" | TDot -> "3");
+                 add ","; p_str t.t_text; add "]"))
+          (tokenize_smiles (j_str s))
+    | "pyset", [ops] ->
+        p_res (fun (evs, (s : pyset)) ->
+                 add "["; p_list (fun ((k, kerr), order) ->
+                   add "["; p_opt p_nat k; add ","; p_bool kerr; add ","; p_list p_nat order; add "]") evs;
+                 add ","; p_nat s.ps_mask; add ","; p_nat s.ps_fill; add ","; p_nat s.ps_used;
+                 add ","; p_nat s.ps_finger; add "]")
+          (ps_run ps_empty (j_list j_psop ops))
+    | "split", [s] -> p_pair (p_list p_str) p_bool (split_selfies (j_str s))
+    | "len", [s] -> p_nat (len_selfies (j_str s))
+    | "alphabet", [ss] -> p_res (p_list p_str) (get_alphabet_from_selfies (j_list j_str ss))
+    | "idx_from", [syms] -> p_n (get_index_from_selfies (j_list (j_opt j_str) syms))
+    | "spec_idx", [syms] -> p_n (doc_value (List.map doc_digit (j_list (j_opt j_str) syms)))
     | "idx_to", [n] -> p_res (p_list p_str) (get_selfies_from_index (j_z n))
     | "modernize", [s] -> p_res p_str (modernize_symbol (j_str s))
     | "atom_sym", [t; s] ->
